@@ -51,11 +51,15 @@ claimed = {
    text="One relation per format, established by every writer and inverted by every reader, all discharged for arbitrary field values: pbRepr (all 12 replicated fields of robust.Message) is the postcondition of Message.ProtoMessage and of CopyToProtoMessage (lemma: the two encoders agree field by field) and, read backwards, the assertion at the return of NewMessageFromBytes (protobuf branch), where the id is proved to default to the caller's index exactly when it is 0; raftRepr (index, term, type, data, extensions, append time) is asserted at every place a log entry is encoded (FSM.Apply, LevelDBStore.StoreLogs, ConvertToProto) and decoded (raftlog.FromBytes, LevelDBStore.GetLog, FSM.Snapshot, the text-log dump, the canary reader); keys are proved to be the entry's own index. A zero-annotation sweep over the SSA of the whole repository shows that every call of NewMessageFromBytes takes data and index from the same entry and converts the index with IdFromRaftIndex.",
    note="Assumes proto.Marshal/Unmarshal (and the JSON codec of the legacy branches) are inverse on the generated types: the contracts pin down the field-by-field code on both sides of that dependency, not the dependency. Not covered: the hand-written binary codec of the output store (messageBatch.marshal/unmarshalMessageBatch) - a variable-length byte layout whose round trip needs recursive specification functions; no contract is claimed for it.",
    design="§5 C18"),
+ "C03": dict(
+   text="One relation per serialized type, proved in both directions for all states and all snapshots: IRCServer.Marshal is proved (loop invariants over the session map in any iteration order) to write every session exactly once with all 22 plain fields, its user modes and its id (sessRepr, modesRepr), the whole network configuration (cfgRepr: revision, durations, key, limits, ban map, operators, services) and lastProcessed/lastIncludedIndex; IRCServer.Unmarshal is proved to re-establish the same relations between the decoded snapshot and the loaded server (including the reader's legacy fall-backs), to hold exactly the decoded sessions, and to rebuild the derived indexes: the nickname index satisfies the handlers' invariant (only sessions with a nickname, each under its own lowered nickname) and the services list holds exactly the Server sessions. Lemmas show the relations determine every related field (two states related to the same wire form agree). A structural check enumerates the fields of Session, config.Network and IRCServer from go/types and requires each to occur in the relation or on a reasoned exclusion list, so a field added to the state but not serialized is reported without annotation.",
+   note="Known finding (listed, not repaired): config.Network.WhitelistedOrigins is not serialized. Fixed: nickname-less sessions were indexed under the empty nickname on load. Not covered yet: the set-valued session fields Channels/invitedTo, the channel table and nickname holds (no relation stated; their code is executed symbolically only). Assumes the protobuf library round-trips pb.Snapshot, Duration.String/ParseDuration and hex encode/decode are inverse, times lie in the int64-nanosecond range, snapshots are taken between entries (no deleted sessions), Unmarshal runs on a fresh server.",
+   design="§5 C03"),
 }
 na = {
  "C05": "whole-system property over process kills, restarts and leader changes of several OS processes running hashicorp/raft; no function contract within reach expresses it (DESIGN §5 C05)",
 }
-notbuilt = ["C02","C03","C04","C07","C08","C09","C20"]
+notbuilt = ["C02","C04","C07","C08","C09","C20"]
 checks = []
 for pid, c in sorted(claimed.items()):
     checks.append({
